@@ -107,7 +107,7 @@ def exact_extremes(pts):
 
 
 def check_extremes(pts):
-    if c02.near_tie(pts):
+    if c02.near_tie(pts, ends=False):
         return "skip"
     seg = oc.mkseg(pts)
     got = sorted(seg.findExtremes())
@@ -130,7 +130,7 @@ def backtrack(coords):
 
 def check_add_extremes(segs, closed):
     for s in segs:
-        if c02.near_tie(s):
+        if c02.near_tie(s, ends=False):
             return "skip"
     p = oc.path_from(segs, closed)
     orig = [oc.seg_pts(s) for s in p.asSegments()]
@@ -231,7 +231,7 @@ def search(ctx, budget):
             kind = "path"
         else:
             order = 2 + i % 3
-            fam = ["int", "grid", "arch", "elevated", "dyadic", "float", "collinear", "coincident", "arch", "double-root", "evenspaced", "tiny", "retracted"][(i // 3) % 13]
+            fam = ["int", "grid", "arch", "elevated", "dyadic", "float", "collinear", "coincident", "arch", "double-root", "evenspaced", "tiny", "retracted", "axishandles"][(i // 3) % 14]
             if fam == "double-root" and rng.random() < 0.5:
                 # cusp cubic: x' and y' share a root (the same cut parameter twice), with a further extreme later on the segment
                 r1 = rng.choice([0.25, 0.5, 0.375])
